@@ -400,10 +400,16 @@ func groupCaps(group, root string) *plugin.Capabilities {
 	return c
 }
 
+// rootKinds: real = ScanRoot{FS: DirFS(tree), Path: tree}; virtual = Path "";
+// elsewhere-empty / elsewhere-missing = the FS serves the tree but Path names another directory
+// (an existing empty one, resp. one that does not exist) - the shape of an overlay / in-memory FS
+// with a nominal mount point, where host paths built from Path do not lead to the files.
+var rootKinds = []string{"real", "virtual", "elsewhere-empty", "elsewhere-missing"}
+
 func scanJobs(infos []exInfo, thorough bool) []scanJob {
 	variants := variantsFor(thorough)
 	var out []scanJob
-	for _, root := range []string{"real", "virtual"} {
+	for _, root := range rootKinds {
 		for _, v := range variants {
 			for _, in := range infos {
 				if len(in.Paths) == 0 {
@@ -413,12 +419,12 @@ func scanJobs(infos []exInfo, thorough bool) []scanJob {
 			}
 		}
 	}
-	for _, root := range []string{"real", "virtual"} {
+	for _, root := range rootKinds {
 		for _, v := range sqliteVariants {
 			out = append(out, scanJob{Ex: "os/rpm", Variant: v, Root: root, Group: "linux"})
 		}
 	}
-	for _, root := range []string{"real", "virtual"} {
+	for _, root := range rootKinds {
 		for _, v := range variants {
 			for _, g := range []string{"linux", "mac", "windows"} {
 				out = append(out, scanJob{Ex: "*", Variant: v, Root: root, Group: g})
@@ -616,8 +622,13 @@ func runScan(sb *sandbox, infos []exInfo, j scanJob) scanResult {
 	before := snapshot(sb.R)
 	cnt := &runCounter{runs: map[string]int{}}
 	root := &scalibrfs.ScanRoot{FS: scalibrfs.DirFS(tree), Path: tree}
-	if j.Root == "virtual" {
+	switch j.Root {
+	case "virtual":
 		root.Path = ""
+	case "elsewhere-empty":
+		root.Path = sb.dir("in/emptyroot")
+	case "elsewhere-missing":
+		root.Path = sb.dir("in/missingroot")
 	}
 	cfg := &scalibr.ScanConfig{
 		FilesystemExtractors: extractorsFor(j),
